@@ -143,10 +143,8 @@ impl MmioDevice for Dev {
                 s.q().ready as u64
             }
             0x060 => 0,
-            0x070 => {
-                s.ev(Tok::Other("get_status".into()));
-                s.status as u64
-            }
+            // a read of the status register is not part of the compared event list (harmless, unordered)
+            0x070 => s.status as u64,
             0x0fc => {
                 s.ev(Tok::Cfg(true));
                 0
